@@ -440,14 +440,26 @@ Inductive closure (ps : list (Z * Z)) : Z -> Z -> Prop :=
 | ecl_sym x y : closure ps x y -> closure ps y x
 | ecl_trans x y z : closure ps x y -> closure ps y z -> closure ps x z.
 
-(** Executable: class labels; processing (a, b) relabels a's class with b's label. *)
+(** Executable: class labels; processing (a, b) relabels a's class with b's label.
+    [label] is the definition; [label_tab] computes it for several elements at once in
+    polynomial time ([label] itself recurses three times per pair). *)
 Fixpoint label (ps : list (Z * Z)) (x : Z) : Z :=
   match ps with
   | [] => x
   | (a, b) :: r => if Z.eqb (label r x) (label r a) then label r b else label r x
   end.
+Fixpoint label_tab (ps : list (Z * Z)) (els : list Z) : list Z :=
+  match ps with
+  | [] => els
+  | (a, b) :: r =>
+      match label_tab r (a :: b :: els) with
+      | la :: lb :: rest => map (fun l => if Z.eqb l la then lb else l) rest
+      | _ => []
+      end
+  end.
 Definition closure_b (ps : list (Z * Z)) (x y : Z) : bool :=
-  mem_z x (dom ps) && mem_z y (dom ps) && Z.eqb (label ps x) (label ps y).
+  mem_z x (dom ps) && mem_z y (dom ps) &&
+  match label_tab ps [x; y] with [lx; ly] => Z.eqb lx ly | _ => false end.
 
 (** The class of x (elements in order of first mention, without repetition) *)
 Fixpoint dedup (l : list Z) : list Z :=
